@@ -11,6 +11,7 @@ From Coq Require Import ZArith NArith List Bool.
 From PydoctorVerif Require Import Base.Sexp Model.ReDeriv Model.OptTypes Gen.TablesC20 Spec.PyStrLit Spec.PyListLit
      Model.Quote Model.IniValue Model.TomlValue Model.Validator Model.Merge Model.Options
      Proofs.QuoteProofs Proofs.ConfigProofs.
+From PydoctorVerif Require Model.IniIR Gen.IniCode Proofs.IniIRProofs.
 Import ListNotations.
 Local Open Scope N_scope.
 
@@ -315,6 +316,36 @@ Theorem C20_section_lookup_ini_partial :
     Forall (fun s => mem_text (fst s) sections = false) post ->
     ini_parse sections split (pre ++ (name, items) :: post) = ini_items split items [].
 Proof. exact ini_single_section. Qed.
+
+(* ================================================================== the code itself
+   Gen/IniCode.v is the translation (harness/gen/gen_c20_code.py, regenerated on every run) of the CURRENT bodies of
+   is_quoted, unquote_str and of the item loop of IniConfigParser.parse into the language of Model/IniIR.v.
+   Interpreting that code is the hand-written model, for every input -- so every theorem above about
+   Model.Quote / Model.IniValue is a theorem about what the source says now, up to the primitives listed in IniIR.v. *)
+Theorem C20_code_is_quoted_is_model :
+  forall (s : text) (triple : bool),
+    IniIR.is_quoted_ir IniCode.ini_code (IniIR.VStr s) (IniIR.VBool triple) = IniIR.EV (IniIR.VBool (is_quoted s triple)).
+Proof. exact IniIRProofs.is_quoted_code. Qed.
+
+Theorem C20_code_unquote_str_is_model :
+  forall (s : text) (triple : bool),
+    IniIR.unquote_str_ir IniCode.ini_code (IniIR.VStr s) (IniIR.VBool triple)
+    = match unquote_str s triple with
+      | UOk t => IniIR.EV (IniIR.VStr t)
+      | UValueError => IniIR.ERaise IniIR.XValueError
+      | UUnsup => IniIR.EUnsup
+      end.
+Proof. exact IniIRProofs.unquote_str_code. Qed.
+
+(* one (key, value) item of a section: never stuck, and exactly the decision tree of Model.IniValue.ini_value *)
+Theorem C20_code_ini_item_is_model :
+  forall (split : bool) (k v : text), IniIR.item_ir IniCode.ini_code split k v = Some (ini_value split v).
+Proof. exact IniIRProofs.item_code. Qed.
+
+Theorem C20_code_ini_parse_is_model :
+  forall (sections : list text) (split : bool) (secs : list (text * list (text * text))),
+    IniIR.ini_parse_ir IniCode.ini_code sections split secs = Some (ini_parse sections split secs).
+Proof. exact IniIRProofs.ini_parse_code. Qed.
 
 (* ================================================================== non-vacuity *)
 Definition v_weird : text := [105;116;39;115;32;34;92;34;10;233].   (* i t apostrophe s space dquote backslash dquote LF e-acute *)
